@@ -1,0 +1,68 @@
+// +build verif
+
+package rockredis
+
+// Exported thin wrappers around the unexported key encoders, for direct
+// checks of injectivity, round trip and range containment by the simulation
+// harness. Only compiled with the verif build tag.
+
+func VerifEncodeKVKey(key []byte) []byte                     { return encodeKVKey(key) }
+func VerifDecodeKVKey(ek []byte) ([]byte, error)             { return decodeKVKey(ek) }
+func VerifEncodeMetaKey(dt byte, key []byte) ([]byte, error) { return encodeMetaKey(dt, key) }
+func VerifDecodeMetaKey(dt byte, ek []byte) ([]byte, error)  { return decodeScanKey(dt, ek) }
+
+// VerifEncodeCollSubKey: dt is HashType, SetType or ZSetType.
+func VerifEncodeCollSubKey(dt byte, table, key, sub []byte) []byte {
+	return encodeCollSubKey(dt, table, key, sub)
+}
+
+func VerifDecodeCollSubKey(ek []byte) (byte, []byte, []byte, []byte, error) {
+	return decodeCollSubKey(ek)
+}
+
+// VerifCollRange returns the start and stop keys that delimit the element
+// keys of one collection (as used by clear and enumerate).
+func VerifCollRange(dt byte, table, key []byte) (start []byte, stop []byte) {
+	switch dt {
+	case HashType:
+		return hEncodeStartKey(table, key), hEncodeStopKey(table, key)
+	case SetType:
+		return sEncodeStartKey(table, key), sEncodeStopKey(table, key)
+	case ZSetType:
+		return zEncodeStartSetKey(table, key), zEncodeStopSetKey(table, key)
+	case ZScoreType:
+		return zEncodeStartKey(table, key), zEncodeStopKey(table, key)
+	}
+	return nil, nil
+}
+
+func VerifEncodeListKey(table, key []byte, seq int64) []byte { return lEncodeListKey(table, key, seq) }
+func VerifDecodeListKey(ek []byte) ([]byte, []byte, int64, error) {
+	return lDecodeListKey(ek)
+}
+
+func VerifEncodeZScoreKey(table, key, member []byte, score float64) []byte {
+	return zEncodeScoreKey(false, false, table, key, member, score)
+}
+
+func VerifDecodeZScoreKey(ek []byte) ([]byte, []byte, []byte, float64, error) {
+	return zDecodeScoreKey(ek)
+}
+
+// VerifTableDataRange returns the ranges a whole-table delete removes for a
+// data type (element keys), VerifTableMetaRange the range of its meta keys.
+func VerifTableDataRange(dt byte, table []byte) ([][2][]byte, error) {
+	rgs, err := getTableDataRange(dt, table, nil, nil)
+	if err != nil {
+		return nil, err
+	}
+	out := make([][2][]byte, 0, len(rgs))
+	for _, r := range rgs {
+		out = append(out, [2][]byte{r.Start, r.Limit})
+	}
+	return out, nil
+}
+
+func VerifTableMetaRange(dt byte, table []byte) ([]byte, []byte, error) {
+	return getTableMetaRange(dt, append([]byte{}, table...), nil, nil)
+}
